@@ -576,6 +576,8 @@ static void do_op(void)
       o_add(" valid=%d", esl_tree_Validate(T, errbuf) == eslOK);
       o_add(" vu2=%s", h_status(esl_tree_VerifyUltrametric(T)));
       o_add(" cmp2=%s", h_status(esl_tree_Compare(T2, T)));
+      o_add(" l2="); o_ilist(T2->left, n - 1);                /* the second tree, for the monitor's own topology comparison */
+      o_add(" r2="); o_ilist(T2->right, n - 1);
       h_out("%s", ob);
     }
     esl_dmatrix_Destroy(M); esl_tree_Destroy(T); esl_tree_Destroy(T2); esl_dmatrix_Destroy(D);
